@@ -1,3 +1,4 @@
+import Mqtt5V.Proofs.Trace
 import Mqtt5V.Proofs.PubSend
 import Mqtt5V.Proofs.PidAlloc
 /-! # C08 — packet identifiers are unique among outstanding exchanges and never zero
@@ -159,5 +160,35 @@ theorem publish_releases_its_identifier_exactly_once (qos2 : Bool) (is : List In
   exact h.1.2
 
 end PubSendOp
+
+/-! ## the composed client model (`Model/Trace.lean`)
+One labelled transition system for the whole outbound path of the client above the stream (API call → sender → reply map → completion),
+over the events an observer of the real client sees.  The tie: `lib/trace_check.py` replays every H-client transcript of the real
+`mqtt_client` through the compiled model (`mdrv trace`); a transcript the model refuses is a broken correspondence.  The theorems below
+hold for EVERY event list the model accepts, of any length. -/
+section ComposedModel
+open Mqtt5V.Model
+
+/-- **C08 end to end, every accepted history**: at any moment (after any prefix) two operations whose request packets (PUBLISH QoS 1/2,
+SUBSCRIBE, UNSUBSCRIBE) carried the same identifier and that have both not completed yet are the same operation … -/
+theorem composed_outstanding_identifiers_distinct (tr pre post : List Trace.Ev) (hacc : Trace.accepts tr = true) (hsplit : tr = pre ++ post)
+    (o1 o2 p : Nat) (u1 : Trace.usesPid pre o1 p) (u2 : Trace.usesPid pre o2 p) (n1 : ¬ Trace.doneIn pre o1) (n2 : ¬ Trace.doneIn pre o2) :
+    o1 = o2 := by
+  obtain ⟨s, hr⟩ := (Mqtt5V.Proofs.Trace.accepts_iff _).1 hacc
+  rw [hsplit] at hr
+  obtain ⟨s1, hr1, _⟩ := Mqtt5V.Proofs.Trace.run_prefix hr
+  exact Mqtt5V.Proofs.Trace.pid_unique hr1 u1 u2 n1 n2
+
+/-- … an operation uses one identifier for all its transmissions, and never 0 -/
+theorem composed_identifier_stable_nonzero (tr : List Trace.Ev) (hacc : Trace.accepts tr = true) (op p1 p2 : Nat)
+    (u1 : Trace.usesPid tr op p1) (u2 : Trace.usesPid tr op p2) : p1 = p2 ∧ p1 ≠ 0 := by
+  obtain ⟨s, hr⟩ := (Mqtt5V.Proofs.Trace.accepts_iff _).1 hacc
+  exact ⟨Mqtt5V.Proofs.Trace.pid_stable hr u1 u2, Mqtt5V.Proofs.Trace.pid_nonzero hr u1⟩
+
+example : Trace.accepts [.init 1 .pub1 1, .init 2 .sub 1, .connUp none, .wr, .pk (.publish 1 1 7 false 3), .pk (.subscribe 2 7 4)] = false := by decide
+example : Trace.accepts [.init 1 .pub1 1, .init 2 .sub 1, .connUp none, .wr, .pk (.publish 1 1 7 false 3), .wrOk,
+    .rx ⟨.puback, 7, [0], 0, true⟩, .doneOk 1 [0] 0, .wr, .pk (.subscribe 2 7 4)] = true := by decide
+
+end ComposedModel
 
 end Mqtt5V.Props.C08
